@@ -81,6 +81,17 @@ def _huffman_lattice(ctx, exe):
     if not recs:
         raise vlib.InfraError("no Huffman vectors exported")
 
+    _replay_lattice(ctx, exe, recs, "Huffman", "huffman_vectors")
+    # events of rate 0 (pairs without electronic coupling get Marcus rate 0): length rate/sum = 0
+    zero = vlib.tlc("huffman", "MCHuffZero", cfg="MCHuffZero.cfg", workers=4, timeout=1200)
+    vlib.tlc_must_hold(zero, "Huffman with zero-rate events")
+    ctx.add_tlc("MCHuffZero", zero)
+    if not any(0 in r["rates"] for r in zero.records):
+        raise vlib.InfraError("vacuous: no zero-rate vector exported")
+    _replay_lattice(ctx, exe, zero.records, "Huffman:zero-rate", "huffman_zero_rate_vectors")
+
+
+def _replay_lattice(ctx, exe, recs, K, count_key):
     # group the admissible trees (tie orders) of each rate vector
     by_rates = {}
     for r in recs:
@@ -120,28 +131,28 @@ def _huffman_lattice(ctx, exe):
             ctx.nontriv(("huff", rates))
         rep = {"rates": list(rates), "sum": S, "expected_measure": g["exp"], "model_thresholds": g["thr"]}
         if i in crashes:
-            ctx.violation("Huffman:crash:" + shape, "driver died on rates %s: %s" % (list(rates), crashes[i]), rep)
+            ctx.violation(K + ":crash:" + shape, "driver died on rates %s: %s" % (list(rates), crashes[i]), rep)
             continue
         out = results[i]
         ex = _exc(out)
         if ex:
-            ctx.violation("Huffman:exception:" + shape, "%s for rates %s" % (ex, list(rates)), rep)
+            ctx.violation(K + ":exception:" + shape, "%s for rates %s" % (ex, list(rates)), rep)
             continue
         plan, pts, eps = meta[i]
         esc = float(_line(out[0], "esc")[0])
         if esc != float(g["esc"]):
-            ctx.violation("Huffman:escape-rate", "escape rate %r, sum of rates %d, rates %s" % (esc, g["esc"], list(rates)), rep)
+            ctx.violation(K + ":escape-rate", "escape rate %r, sum of rates %d, rates %s" % (esc, g["esc"], list(rates)), rep)
         thr = [float(t) for t in _line(out[0], "thr")]
         sel = [int(t) for t in _line(out[1], "sel")]
         rep["real_thresholds"] = thr
         if any(not (0 <= s < n) for s in sel):
-            ctx.violation("Huffman:total:" + shape, "a probe in [0,1] selected no event of the list: %s, rates %s"
+            ctx.violation(K + ":total:" + shape, "a probe in [0,1] selected no event of the list: %s, rates %s"
                           % (sel, list(rates)), rep)
             continue
         # the real thresholds must be model thresholds (then probing at +-eps/midpoints is exact)
         off = [t for t in thr if min(abs(t - a / S) for a in pts) > eps]
         if off:
-            ctx.violation("Huffman:threshold-off-lattice:" + shape,
+            ctx.violation(K + ":threshold-off-lattice:" + shape,
                           "tree thresholds %s are not among the thresholds of any admissible tree %s/%d (rates %s)"
                           % (off, pts, S, list(rates)), rep)
         meas = [0] * n
@@ -153,11 +164,11 @@ def _huffman_lattice(ctx, exe):
                     bad_cell = (a, b, sel[k0], sel[k1], sel[k2])
                 meas[sel[k1]] += b - a
         if bad_cell:
-            ctx.violation("Huffman:cell-not-constant:" + shape,
+            ctx.violation(K + ":cell-not-constant:" + shape,
                           "selection changes inside the cell (%d/%d, %d/%d): events %s; rates %s"
                           % (bad_cell[0], S, bad_cell[1], S, bad_cell[2:], list(rates)), rep)
         elif meas != g["exp"]:
-            ctx.violation("Huffman:measure:" + shape,
+            ctx.violation(K + ":measure:" + shape,
                           "selection measure numerators %s over %d, expected %s (rates %s)" % (meas, S, g["exp"], list(rates)), rep)
         # the partition by the tree's own thresholds must give the same measure
         cl = _line(out[2], "cells")
@@ -171,12 +182,12 @@ def _huffman_lattice(ctx, exe):
             else:
                 own[ev] += b - a
         if not ok:
-            ctx.violation("Huffman:total:" + shape, "partition by the tree's thresholds has a cell without event: %s" % cl, rep)
+            ctx.violation(K + ":total:" + shape, "partition by the tree's thresholds has a cell without event: %s" % cl, rep)
         elif own != g["exp"]:
-            ctx.violation("Huffman:measure:" + shape,
+            ctx.violation(K + ":measure:" + shape,
                           "measure by the tree's own thresholds %s over %d, expected %s (rates %s)" % (own, S, g["exp"], list(rates)), rep)
         if not inrange:
-            ctx.violation("Huffman:threshold-outside-unit-interval:" + shape, "thresholds %s, rates %s" % (thr, list(rates)), rep)
+            ctx.violation(K + ":threshold-outside-unit-interval:" + shape, "thresholds %s, rates %s" % (thr, list(rates)), rep)
         # transcription drift (DESIGN 7.8): warning only
         real_num = sorted(int(round(t * S)) for t in thr)
         if real_num not in [sorted(t) for t in g["thr"]]:
@@ -185,8 +196,8 @@ def _huffman_lattice(ctx, exe):
             if len(ctx.extra["warnings"]) < 5:
                 ctx.extra["warnings"].append("threshold multiset %s of the real tree for rates %s is not one of the "
                                              "model's trees %s: update the AlgoTree transcription" % (real_num, list(rates), g["thr"]))
-    ctx.extra["huffman_vectors"] = len(vecs)
-    ctx.extra["huffman_transcription_drift"] = drift
+    ctx.extra[count_key] = len(vecs)
+    ctx.extra["huffman_transcription_drift"] = ctx.extra.get("huffman_transcription_drift", 0) + drift
     ctx.sample({"huffman_vector": {"rates": list(vecs[len(vecs) // 2][0]), "trees": vecs[len(vecs) // 2][1]["thr"]}})
 
 
@@ -399,8 +410,166 @@ def _huffman_wide(ctx, exe):
 
 
 # ------------------------------------------------------------------------------------------
-KT = {1: 2.0 ** -10, 2: 3.0 * 2.0 ** -11}     # Hartree (308 K, 462 K)
 J0 = 2.0 ** -20                                # Hartree^2
+
+
+# ------------------------------------------------------------------------------------------
+GKT = 2.0 ** -10
+
+
+def _graph_cmd(r, E, c, F, inj, ign):
+    parts = ["graph", c, repr(GKT), " ".join(repr(f * GKT) for f in F), inj, ign, repr(GKT), repr(J0), str(r["n"])]
+    for t, e in zip(r["types"], E):
+        parts += [t, repr(e * GKT)]
+    parts.append(str(len(r["pairs"])))
+    for p in r["pairs"]:
+        parts += [str(p["a"]), str(p["b"])] + [repr(float(x)) for x in p["R"]] + [repr(float(p["jm"]))]
+    return " ".join(parts)
+
+
+def _parse_nodes(lines):
+    nodes, pairs, failed = {}, {}, None
+    for ln in lines:
+        t = ln.split()
+        if t[0] == "pair":
+            pairs[int(t[1])] = (float(t[2]), float(t[3]))
+        elif t[0] == "node":
+            nev = int(t[9])
+            ev = [(int(t[10 + 5 * k]), float(t[11 + 5 * k]), [float(x) for x in t[12 + 5 * k:15 + 5 * k]]) for k in range(nev)]
+            nodes[int(t[1])] = {"inj": t[3] == "1", "esc": float(t[5]), "tree": t[7] == "1", "ev": ev}
+        elif t[0] == "loadfailed":
+            failed = ln
+    return nodes, pairs, failed
+
+
+def _graph(ctx, exe):
+    """LoadGraph: which rate / displacement / destination ends up in which node."""
+    res = vlib.tlc("huffman", "MCKmcGraph", cfg="MCKmcGraph.cfg", workers=4, timeout=1200)
+    vlib.tlc_must_hold(res, "KmcGraph: every pair is one forward and one backward event")
+    ctx.add_tlc("MCKmcGraph", res)
+    vecs = res.records
+    seen = {"rev": 0, "zeroJ": 0, "ign": 0, "iso": 0, "field": 0}
+    items = [(i, [_graph_cmd(r, r["E"], r["c"], r["F"], r["inj"], r["ign"])]) for i, r in enumerate(vecs)]
+    results, crashes = vlib.run_items(exe, items)
+    for i, r in enumerate(vecs):
+        ctx.count()
+        if i in crashes:
+            ctx.violation("Graph:crash", "driver died in LoadGraph: %s" % crashes[i], r)
+            continue
+        nodes, direct, failed = _parse_nodes(results[i][0])
+        if r["iso"]:
+            seen["iso"] += 1
+            ctx.extra.setdefault("observations", {})["LoadGraph with a segment that has no pair"] = failed or "completes"
+            continue       # the statement is silent about sites without events
+        ctx.nontriv(("graph", i))
+        if failed or _exc(results[i]) or len(nodes) != r["n"]:
+            ctx.violation("Graph:load-failed", "LoadGraph failed on a connected graph: %s" % (failed or results[i][0][-2:]), r)
+            continue
+        seen["rev"] += any(p["a"] > p["b"] for p in r["pairs"])
+        seen["zeroJ"] += any(p["jm"] == 0 for p in r["pairs"])
+        seen["field"] += r["q"] != 0 and any(r["F"])
+        for ni, exp in enumerate(r["nodes"]):
+            got = nodes[ni]
+            if got["inj"] != exp["inj"]:
+                ctx.violation("Graph:injectable", "node %d type %s pattern %s: injectable=%s" % (ni, r["types"][ni], r["inj"], got["inj"]), r)
+            if len(got["ev"]) != len(exp["ev"]):
+                ctx.violation("Graph:event-count", "node %d has %d events, expected %d" % (ni, len(got["ev"]), len(exp["ev"])), r)
+                continue
+            for (dest, rate, dr), e in zip(got["ev"], exp["ev"]):
+                k12, k21 = direct[e["p"]]
+                if dest != e["dest"]:
+                    ctx.violation("Graph:destination", "node %d pair %d: destination %d, expected %d" % (ni, e["p"], dest, e["dest"]), r)
+                if dr != [float(x) for x in e["dr"]]:
+                    ctx.violation("Graph:displacement:dir%d" % e["dir"], "node %d pair %d: dr %s, expected %s" % (ni, e["p"], dr, e["dr"]), r)
+                want = k12 if e["dir"] == 12 else k21
+                if rate != want:
+                    ctx.violation("Graph:rate:dir%d" % e["dir"], "node %d pair %d: event rate %r, Rate_Engine gives k12=%r k21=%r, "
+                                  "this node needs the %s one" % (ni, e["p"], rate, k12, k21, "forward" if e["dir"] == 12 else "backward"), r)
+                if r["pairs"][e["p"]]["jm"] == 0 and rate != 0.0:
+                    ctx.violation("Graph:zero-coupling", "pair without coupling gives rate %r" % rate, r)
+            if exp["tree"]:
+                tot = 0.0
+                for (_, rate, _) in got["ev"]:
+                    tot += rate
+                if not got["tree"] or not vlib.close(got["esc"], tot, 1e-14, 0):
+                    ctx.violation("Graph:escape-rate", "node %d: tree=%s escape rate %r, sum of its event rates %r" % (ni, got["tree"], got["esc"], tot), r)
+            else:
+                seen["ign"] += 1
+                ctx.extra.setdefault("observations", {})["node of a type listed in ignoresegments"] = \
+                    "tree built: %s, escape rate %r" % (got["tree"], got["esc"])
+        # detailed balance ACROSS the wiring: rate on node a towards b over rate on node b towards a
+        for k, p in enumerate(r["pairs"]):
+            if p["jm"] == 0:
+                continue
+            fa = [ev[1] for ev, e in zip(nodes[p["a"]]["ev"], r["nodes"][p["a"]]["ev"]) if e["p"] == k]
+            fb = [ev[1] for ev, e in zip(nodes[p["b"]]["ev"], r["nodes"][p["b"]]["ev"]) if e["p"] == k]
+            if len(fa) == 1 and len(fb) == 1 and fa[0] > 0 and fb[0] > 0:
+                got = math.log(fa[0] / fb[0])
+                if not vlib.close(got, r["lnratio"][k], 1e-9, 1e-9):
+                    ctx.violation("Graph:detailed-balance:%s" % r["c"],
+                                  "pair %d: ln(rate on node %d / rate on node %d) = %r, expected (E_a-E_b+qF.R)/kT = %d"
+                                  % (k, p["a"], p["b"], got, r["lnratio"][k]), r)
+    ctx.extra["graph_vectors"] = len(vecs)
+    ctx.extra["graph_case_counts"] = seen
+    if min(seen.values()) == 0:
+        raise vlib.InfraError("vacuous: graph lattice lacks a case class: %s" % seen)
+    ctx.sample({"graph_vector": vecs[len(vecs) // 2]})
+
+
+def _walk(ctx, exe):
+    """Chargecarrier / GNode bookkeeping over several KMC steps."""
+    cfg = "MCKmcWalkQuick.cfg" if ctx.quick else "MCKmcWalkThorough.cfg"
+    res = vlib.tlc("huffman", "MCKmcWalk", cfg=cfg, workers=4, timeout=1500)
+    vlib.tlc_must_hold(res, "KmcWalk bookkeeping")
+    ctx.add_tlc(cfg[:-4], res)
+    hists = res.records
+    DT = 2.0 ** -7
+    n_reinj = n_jump2 = n_reset = 0
+    items = []
+    for i, r in enumerate(hists):
+        cmds = [_graph_cmd(r, [0] * r["n"], "h", [0, 0, 0], "*", "-")]
+        for st in r["h"]:
+            cmds.append("place %d" % st["i"] if st["a"] == "place" else
+                        "tick %r" % (st["dt"] * DT) if st["a"] == "tick" else
+                        "reset" if st["a"] == "reset" else "jump %d" % st["k"])
+        items.append((i, cmds))
+    results, crashes = vlib.run_items(exe, items)
+    for i, r in enumerate(hists):
+        ctx.traces += 1
+        acts = [st["a"] for st in r["h"]]
+        n_reinj += acts.count("place") > 1
+        n_jump2 += acts.count("jump") >= 2
+        n_reset += "reset" in acts
+        ctx.nontriv(("walk", i))
+        if i in crashes or _exc(results[i]):
+            ctx.violation("Walk:crash", "carrier walk failed: %s" % (crashes.get(i) or _exc(results[i])), r)
+            continue
+        for j, st in enumerate(r["h"]):
+            t = _line(results[i][1 + j], "carrier")
+            o = st["o"]
+            got = {"cur": int(t[0]), "life": float(t[1]), "steps": int(t[2]), "trav": [float(x) for x in t[3:6]],
+                   "occ": [t[6 + 2 * k] == "1" for k in range(r["n"])], "occt": [float(t[7 + 2 * k]) for k in range(r["n"])]}
+            exp = {"cur": o["cur"], "life": o["life"] * DT, "steps": o["steps"], "trav": [float(x) for x in o["trav"]],
+                   "occ": o["occ"], "occt": [x * DT for x in o["occt"]]}
+            for f in ("cur", "life", "steps", "trav", "occ", "occt"):
+                if got[f] != exp[f]:
+                    ctx.violation("Walk:%s:after-%s" % (f, st["a"]), "step %d (%s): %s = %s, expected %s; calls %s"
+                                  % (j, st["a"], f, got[f], exp[f], [(s["a"], s.get("i", s.get("k", s.get("dt")))) for s in r["h"][:j + 1]]), r)
+                    break
+    ctx.extra["walk_histories"] = len(hists)
+    if n_reinj == 0 or n_jump2 == 0 or n_reset == 0:
+        raise vlib.InfraError("vacuous: no walk with re-injection / two jumps")
+
+
+def _observations(ctx, exe):
+    """Edge inputs outside the statement's quantifier: recorded, never asserted."""
+    results, crashes = vlib.run_items(exe, [(0, ["huff 0"]), (1, ["huff 2 0.0 0.0", "probe 3 0.0 0.5 1.0"])])
+    obs = ctx.extra.setdefault("observations", {})
+    obs["MakeHuffTree on an empty event list"] = crashes.get(0) or " / ".join(sum(results.get(0, [[]]), []))
+    obs["all rates zero"] = crashes.get(1) or " / ".join(sum(results.get(1, [[]]), []))
+
+
+KT = {1: 2.0 ** -10, 2: 3.0 * 2.0 ** -11}     # Hartree (308 K, 462 K)
 
 
 def _marcus(ctx, exe):
@@ -419,6 +588,39 @@ def _marcus(ctx, exe):
             " ".join(repr(r[k] * kT) for k in ("em1", "ux1", "n1", "x1")),
             " ".join(repr(r[k] * kT) for k in ("em2", "ux2", "n2", "x2")), r["lo"] * kT)
         items.append((i, [base + " %r" % J0, base + " %r" % (r["lin"] * J0)]))
+    # reference rates k0 at vanishing exponent, one per (carrier, temperature, reorganisation) class:
+    # no field, E1-E2 = +l12 (forward) / -l21 (backward)
+    refkey = lambda r: (r["c"], r["tk"], r["n1"], r["x1"], r["n2"], r["x2"], r["lo"])
+    refs = {}
+    for r in vecs:
+        refs.setdefault(refkey(r), r)
+    ref_items = []
+    for k, r in sorted(refs.items()):
+        kT = KT[r["tk"]]
+        tail = "%s %s %r %r" % (" ".join(repr(r[x] * kT) for x in ("n1", "x1")),
+                                "0.0 0.0 " + " ".join(repr(r[x] * kT) for x in ("n2", "x2")), r["lo"] * kT, J0)
+        head = "marcus %s %r 0.0 0.0 0.0 %s" % (r["c"], kT, " ".join(repr(float(x)) for x in r["R"]))
+        ref_items.append((k, [head + " %r 0.0 %s" % (r["l12"] * kT, tail), head + " %r 0.0 %s" % (-r["l21"] * kT, tail)]))
+    ref_res, ref_crash = vlib.run_items(exe, ref_items)
+    k0 = {}
+    pref = None
+    for k, r in sorted(refs.items()):
+        if k in ref_crash or _exc(ref_res[k]):
+            ctx.violation("Marcus:reference", "reference rate failed for %s: %s" % (r, ref_crash.get(k) or _exc(ref_res[k])), r)
+            continue
+        f = float(_line(ref_res[k][0], "rates")[0])
+        b = float(_line(ref_res[k][1], "rates")[1])
+        k0[k] = (f, b)
+        # prefactor 2pi/hbar J2/sqrt(4 pi lam kT): (k0 kT)^2 * (lam/kT) is the same number for every class
+        for val, lam in ((f, r["l12"]), (b, r["l21"])):
+            c2 = (val * KT[r["tk"]]) ** 2 * lam
+            if pref is None:
+                pref = c2
+            elif not vlib.close(c2, pref, 1e-12, 0):
+                ctx.violation("Marcus:prefactor", "k0^2 kT lam = %r differs from %r of the first class: the prefactor is not "
+                              "proportional to 1/sqrt(lam kT) (%s)" % (c2, pref, r), r)
+    ctx.extra["marcus_reference_classes"] = len(refs)
+    n_uneq = 0
     results, crashes = vlib.run_items(exe, items)
     for i, r in enumerate(vecs):
         ctx.count()
@@ -442,6 +644,16 @@ def _marcus(ctx, exe):
             continue
         if not (vlib.close(b[0] / a[0], r["lin"], 1e-12, 0) and vlib.close(b[1] / a[1], r["lin"], 1e-12, 0)):
             ctx.violation("Marcus:linear-J2", "k(%d J2)/k(J2) = %r, %r for %s" % (r["lin"], b[0] / a[0], b[1] / a[1], r), r)
+        # each direction separately (also for unequal reorganisation energies): ln(k/k0) = -(lam-G)^2/(4 lam)
+        if refkey(r) in k0:
+            if not r["eq"]:
+                n_uneq += 1
+            for d, kk, ref, xn, xd in (("12", a[0], k0[refkey(r)][0], r["x12n"], r["x12d"]),
+                                       ("21", a[1], k0[refkey(r)][1], r["x21n"], r["x21d"])):
+                got = math.log(kk / ref)
+                if not vlib.close(got, xn / float(xd), 1e-9, 1e-9):
+                    ctx.violation("Marcus:expression:%s:%s%s" % (d, "" if r["eq"] else "unequal-reorg:", cls),
+                                  "ln(k%s/k0) = %r, Marcus exponent is %d/%d for %s" % (d, got, xn, xd, r), r)
         if r["eq"]:
             got = math.log(a[0] / a[1])
             if not vlib.close(got, r["lnratio"], 1e-9, 1e-9):
@@ -450,6 +662,10 @@ def _marcus(ctx, exe):
     if vecs:
         ctx.sample({"marcus_vector": vecs[len(vecs) // 3]})
     ctx.extra["marcus_vectors"] = len(vecs)
+    ctx.extra["marcus_unequal_reorg_vectors"] = n_uneq
+    if n_uneq == 0 or not any(r["lnratio"] > r["l12"] or -r["lnratio"] > r["l21"] for r in vecs) \
+            or not any(r["lnratio"] < 0 for r in vecs) or not any(r["lnratio"] > 0 for r in vecs):
+        raise vlib.InfraError("vacuous: Marcus lattice lacks unequal-reorganisation, inverted-region or uphill points")
 
 
 def _wait(ctx, exe):
@@ -507,6 +723,9 @@ def run(ctx):
     _huffman_lattice(ctx, exe)
     _huffman_history(ctx, exe)
     _huffman_wide(ctx, exe)
+    _graph(ctx, exe)
+    _walk(ctx, exe)
     _marcus(ctx, exe)
     _wait(ctx, exe)
+    _observations(ctx, exe)
     ctx.exhaustive = False
